@@ -254,7 +254,7 @@ func runProperty(cfg RunConfig, evidencePath, knownPath, baselinePath string, up
 		if info == nil || r.FailObl == nil || strings.Contains(r.Name, "~case") || !(r.Kind == "post" || strings.HasPrefix(r.Kind, "safe.")) {
 			continue
 		}
-		candLists[i] = e.findCandidates(rr.Solver, info.Fn, info.Args, info.Names, info.Entry, r.FailObl, 3)
+		candLists[i] = e.findCandidates(rr.Solver, info.Fn, info.Args, info.Names, info.Entry, r.FailObl, 2)
 	}
 	var wg sync.WaitGroup
 	sem := make(chan struct{}, 6)
@@ -307,7 +307,9 @@ func runProperty(cfg RunConfig, evidencePath, knownPath, baselinePath string, up
 	// baseline obligations that can no longer be generated
 	var missing []string
 	for n := range inBase {
-		if !generated[n] {
+		// implicit safety and call-site obligations depend on the shape of the code; only
+		// contract clauses (post-conditions, loop invariants, frames) must keep existing
+		if !generated[n] && (strings.Contains(n, "/post#") || strings.Contains(n, "/inv") || strings.Contains(n, "/frame#")) {
 			missing = append(missing, n)
 		}
 	}
@@ -350,11 +352,11 @@ func runProperty(cfg RunConfig, evidencePath, knownPath, baselinePath string, up
 		cfg.Prop, len(rr.Funcs), len(proved)+len(failed), len(proved), len(failed), len(knownLines), len(undecided), violations, rr.Paths, rr.Solver.nQueries, wall)
 	// scratch cleanup: keep replay files and a few sample obligations only
 	cleanupWork(cfg.Work)
-	if len(rr.Errors) > 0 || len(vacuous) > 0 || missedCan > 0 {
-		return 2
-	}
 	if violations > 0 {
 		return 1
+	}
+	if len(rr.Errors) > 0 || len(vacuous) > 0 || missedCan > 0 {
+		return 2
 	}
 	return 0
 }
